@@ -766,13 +766,6 @@ func TestC14_fixtures(t *testing.T) {
 	completed = true
 }
 
-func verifRoot() string {
-	if r := os.Getenv("VERIF_ROOT"); r != "" {
-		return r
-	}
-	return "/verif"
-}
-
 // propC14Fixture re-decides one package of one fixture (replay entry of the fixture leg).
 // With honourKnown, failures in a known class are not reported.
 func propC14Fixture(col *ev.Collector, honourKnown bool) func(cs c14FixtureCase) (ev.Outcome, error) {
